@@ -549,3 +549,125 @@ Print Assumptions C03_generated_toposort_sound.
 Print Assumptions C03_generated_toposort_rejects_cycles.
 Print Assumptions C03_generated_toposort_accepts_dags.
 Print Assumptions C03_generated_toposort_total.
+
+(* ================================================================================================================ *)
+(* Tie (T), second unit: concat_multi_inputs as translated on this run from the current source text of reservoirpy/ops.py
+   (coq/gen/Gen_ops.v, by tools/vlib/py2coq_ops.py on top of py2coq_graph.py; it calls the generated
+   find_parents_and_children of coq/gen/Gen_graphflow.v).  Parameters of the generated code: [ord_n k s] / [ord_e k s] = the
+   order in which `list(new_nodes)` / `list(new_edges)` enumerate a set, [srt] = `sorted(edges, key=names)` -- ALL that is
+   assumed about them is that they return a permutation of their argument; [isc x] = `type(x) in _MULTI_INPUTS_OPS`
+   (= (Concat,), pinned); [new_concat 0 v] = the object created by `Concat()` in the loop iteration for node v, playing the
+   role of [nm v] (the Fanin hypotheses: it is new, and different for different nodes). *)
+From RV Require gen.Gen_ops proofs.Gen_ops_eq.
+
+Section GeneratedOps.
+Variable ord_n : nat -> list node -> list node.
+Variable ord_e : nat -> list edge -> list edge.
+Variable srt : list edge -> list edge.
+Variable isc : node -> bool.
+Variable new_concat : nat -> node -> node.
+Hypothesis Hord_n : forall k s, Permutation (ord_n k s) s.
+Hypothesis Hord_e : forall k s, Permutation (ord_e k s) s.
+Hypothesis Hsrt : forall l, Permutation (srt l) l.
+Let gen := Gen_ops.GenOps.concat_multi_inputs ord_n ord_e srt isc new_concat.
+Let nm := new_concat 0.
+
+(* the generated concat_multi_inputs returns the model's node set and edge set (both sides duplicate-free, same elements;
+   the order of `list(<set>)` is not claimed) -- for EVERY nodes / edges arguments *)
+Theorem C03_generated_concat_is_model (V : list node) (E : list edge) :
+  (NoDup (fst (gen V E)) /\ NoDup (fst (cmi isc nm V E)) /\ forall x, In x (fst (gen V E)) <-> In x (fst (cmi isc nm V E))) /\
+  (NoDup (snd (gen V E)) /\ NoDup (snd (cmi isc nm V E)) /\ forall e, In e (snd (gen V E)) <-> In e (snd (cmi isc nm V E))).
+Proof. exact (Gen_ops_eq.gen_cmi_is_model ord_n ord_e srt isc new_concat Hord_n Hord_e Hsrt V E). Qed.
+
+(* C03_fanin_once, about the translated code: a non-Concat node with in-degree > 1 gets exactly one parent, the new
+   Concat, which has exactly one child and whose parents are exactly the former parents, each once *)
+Theorem C03_generated_concat_insertion (V : list node) (E : list edge) (v : node) :
+  wf V E -> (forall v, In v V -> ~ In (nm v) V) -> (forall u v, In u V -> In v V -> nm u = nm v -> u = v) ->
+  In v V -> isc v = false -> 1 < indeg E v ->
+  In (nm v) (fst (gen V E)) /\ parents (snd (gen V E)) v = [nm v] /\ children (snd (gen V E)) (nm v) = [v] /\
+  NoDup (parents (snd (gen V E)) (nm v)) /\ (forall p, In p (parents (snd (gen V E)) (nm v)) <-> In (p, v) E).
+Proof. intros Hwf Hfresh Hinj.
+  exact (Gen_ops_eq.gen_cmi_fanin_once ord_n ord_e srt isc new_concat Hord_n Hord_e Hsrt V E Hwf Hfresh Hinj v). Qed.
+
+(* C03_fanin_others_unchanged, about the translated code *)
+Theorem C03_generated_concat_others_unchanged (V : list node) (E : list edge) (v p : node) :
+  (forall v, In v V -> ~ In (nm v) V) -> (forall u v, In u V -> In v V -> nm u = nm v -> u = v) ->
+  In v V -> (isc v = true \/ indeg E v <= 1) -> (In (p, v) (snd (gen V E)) <-> In (p, v) E).
+Proof. intros Hfresh Hinj.
+  exact (Gen_ops_eq.gen_cmi_others_unchanged ord_n ord_e srt isc new_concat Hord_n Hord_e Hsrt V E Hfresh Hinj v p). Qed.
+End GeneratedOps.
+
+(* non-vacuity: the generated code run on the diamond 0 -> {1,2} -> 3 (3 is wrapped by the Concat 103) and on a graph
+   whose fan-in node 3 is itself a Concat (nothing inserted), identity for the three order parameters *)
+Example C03_generated_concat_example :
+  let idn := fun (_ : nat) (s : list node) => s in let ide := fun (_ : nat) (s : list edge) => s in
+  let srt := fun l : list edge => l in let nc := fun (_ : nat) v => 100 + v in
+  Gen_ops.GenOps.concat_multi_inputs idn ide srt (fun _ => false) nc [0; 1; 2; 3] [(0, 1); (0, 2); (1, 3); (2, 3)]
+    = ([0; 1; 2; 103; 3], [(0, 1); (0, 2); (1, 103); (2, 103); (103, 3)]) /\
+  Gen_ops.GenOps.concat_multi_inputs idn ide srt (Nat.eqb 3) nc [0; 1; 2; 3] [(0, 1); (0, 2); (1, 3); (2, 3)]
+    = ([0; 1; 2; 3], [(0, 1); (0, 2); (1, 3); (2, 3)]) /\
+  wf [0; 1; 2; 3] [(0, 1); (0, 2); (1, 3); (2, 3)] /\ 1 < indeg [(0, 1); (0, 2); (1, 3); (2, 3)] 3.
+Proof. cbv zeta. split; [vm_compute; reflexivity|]. split; [vm_compute; reflexivity|]. split.
+  - intros e He. simpl in He. repeat (destruct He as [<-|He]; [simpl; auto 10|]). destruct He.
+  - vm_compute. auto. Qed.
+
+Print Assumptions C03_generated_concat_is_model.
+Print Assumptions C03_generated_concat_insertion.
+Print Assumptions C03_generated_concat_others_unchanged.
+
+(* ---- tie (T), second unit, continued: ops._link_1to1 as translated on this run (same generated file).  An operand (Node or
+   Model) is the identity [n] of the Python object; [is_model n] / [is_frozen_model n] = isinstance(n, Model / FrozenModel);
+   [attr_nodes n] ... = the property reads n.nodes, n.edges, n.input_nodes, n.output_nodes; [is_initialized], [output_dim],
+   [input_dim], [dim_eqb] = the attributes and the `==` used by the dimension check.  [C03_repr n a]: the object n is what the
+   hand model calls the operand [a] (a bare node, or a non-frozen Model with those four fields). *)
+Section GeneratedLink.
+Variables is_model is_frozen_model is_initialized : node -> bool.
+Variables attr_nodes attr_input_nodes attr_output_nodes : node -> list node.
+Variable attr_edges : node -> list edge.
+Variable dim : Type.
+Variables output_dim input_dim : node -> dim.
+Variable dim_eqb : dim -> dim -> bool.
+Let gen_link := Gen_ops.GenOps._link_1to1 is_model is_frozen_model is_initialized attr_nodes attr_input_nodes attr_output_nodes
+  attr_edges dim output_dim input_dim dim_eqb.
+
+Definition C03_repr (n : node) (a : value) : Prop :=
+  match a with
+  | VNode k => n = k /\ is_model n = false /\ is_frozen_model n = false
+  | VModel m => is_model n = true /\ is_frozen_model n = false /\ attr_nodes n = mNodes m /\ attr_edges n = mEdges m /\
+                attr_input_nodes n = mIn m /\ attr_output_nodes n = mOut m
+  end.
+(* both ends initialised and sender.output_dim != receiver.input_dim *)
+Definition C03_dim_clash (e : edge) : bool :=
+  is_initialized (fst e) && (is_initialized (snd e) && negb (dim_eqb (output_dim (fst e)) (input_dim (snd e)))).
+
+(* the generated _link_1to1 returns EXACTLY the two lists of the model's link_1to1 (same order, same duplicates), unless a new
+   edge joins two initialised nodes of different dimensions: then (and only then) it raises ValueError *)
+Theorem C03_generated_link_1to1_is_model (n1 n2 : node) (a b : value) : C03_repr n1 a -> C03_repr n2 b ->
+  gen_link n1 n2 = if existsb C03_dim_clash (list_prod (v_outs a) (v_ins b)) then PyColl.Exc PyColl.ValueError
+                   else PyColl.Val (link_1to1 a b).
+Proof. exact (Gen_ops_eq.gen_link_1to1_is_model is_model is_frozen_model is_initialized attr_nodes attr_input_nodes
+  attr_output_nodes attr_edges dim output_dim input_dim dim_eqb n1 n2 a b). Qed.
+
+Theorem C03_generated_link_1to1_ok (n1 n2 : node) (a b : value) : C03_repr n1 a -> C03_repr n2 b ->
+  (forall s r, In s (v_outs a) -> In r (v_ins b) -> C03_dim_clash (s, r) = false) ->
+  gen_link n1 n2 = PyColl.Val (link_1to1 a b).
+Proof. exact (Gen_ops_eq.gen_link_1to1_ok is_model is_frozen_model is_initialized attr_nodes attr_input_nodes
+  attr_output_nodes attr_edges dim output_dim input_dim dim_eqb n1 n2 a b). Qed.
+End GeneratedLink.
+
+(* non-vacuity: object 10 is the Model {0 -> 1} (entry 0, exit 1), object 2 a bare node; nothing initialised: 10 >> 2 gives
+   nodes [0; 1; 2], edges [(0, 1); (1, 2)];  with 1 and 2 initialised and different dimensions: ValueError *)
+Example C03_generated_link_example :
+  let is_model := Nat.eqb 10 in let frozen := fun _ : node => false in
+  let an := fun n => if Nat.eqb n 10 then [0; 1] else [] in let ai := fun n => if Nat.eqb n 10 then [0] else [] in
+  let ao := fun n => if Nat.eqb n 10 then [1] else [] in let ae := fun n => if Nat.eqb n 10 then [(0, 1)] else [] in
+  let m := {| mNodes := [0; 1]; mEdges := [(0, 1)]; mIn := [0]; mOut := [1] |} in
+  C03_repr is_model frozen an ai ao ae 10 (VModel m) /\ C03_repr is_model frozen an ai ao ae 2 (VNode 2) /\
+  Gen_ops.GenOps._link_1to1 is_model frozen (fun _ => false) an ai ao ae nat (fun n => n) (fun n => n) Nat.eqb 10 2
+    = PyColl.Val ([0; 1; 2], [(0, 1); (1, 2)]) /\
+  Gen_ops.GenOps._link_1to1 is_model frozen (fun _ => true) an ai ao ae nat (fun n => n) (fun n => n) Nat.eqb 10 2
+    = PyColl.Exc PyColl.ValueError.
+Proof. cbv zeta. repeat split; vm_compute; reflexivity. Qed.
+
+Print Assumptions C03_generated_link_1to1_is_model.
+Print Assumptions C03_generated_link_1to1_ok.
